@@ -24,6 +24,7 @@
     the end-to-end check that compares findings[].id with the issue key.
 
     Refuted on the code as written (genuine, listed in findings/C06.json):
+      C06_results_not_consulted_refuted (kf_results_not_consulted:<codemod>)    three SAST transformers never look at the results
       C06_fuzzy_enclosing_refuted (kf_fuzzy_enclosing_call_selected:<codemod>)  the fuzzy override also selects every call
                                                            that encloses the reported call on the same line
       C06_same_line_refuted   (kf_same_line_sites)        findings are attached by line
@@ -332,3 +333,51 @@ Proof.
   - split; [| vm_compute; reflexivity].
     constructor; [| constructor]. intros n [<- | [<- | []]]; vm_compute; reflexivity.
 Qed.
+
+(** A transformer that never calls filter_by_result / node_is_selected (no-csrf-exempt, django-model-without-dunder-str,
+    break-or-continue-out-of-loop) behaves as the default filter does without detector results: once the file is processed,
+    a node no result reports is selected. *)
+Theorem C06_results_not_consulted_refuted :
+  exists n rs, (forall r l, In r rs -> In l (rlocs r) -> ~ reports T_now (rcls r) (nkind n) (nspan n) l) /\
+    node_is_selected T_now FDefault (Some rs) [] [] n = false /\ node_is_selected T_now FDefault None [] [] n = true.
+Proof.
+  exists x_n2, [x_r1]. split.
+  - intros r l [<- | []] [<- | []] H. apply match_loc_iff in H. vm_compute in H. discriminate.
+  - split; destruct line_filter_rule eqn:E; unfold T_now; rewrite E; vm_compute; reflexivity.
+Qed.
+Print Assumptions C06_results_not_consulted_refuted.
+
+(** CodeQL results (Result.match_location, SARIF columns).  A region always denotes a location when the start column
+    defaults to 1 as SARIF says; as written (`region.get("startColumn")`) a region without startColumn - what CodeQL
+    writes for column 1 - has the column None and the join raises.  A result without region (whole file, line 0) points
+    at no node. *)
+Definition C06_codeql_location_statement (d : sc_default) : Prop :=
+  match d with
+  | ScOne => forall file r, exists l, codeql_loc d file r = Some l
+  | ScNone => exists file r, codeql_loc d file (Some r) = None
+  end.
+Lemma C06_codeql_location_all d : C06_codeql_location_statement d.
+Proof.
+  destruct d; simpl.
+  - exists w_file, (mkregion 4 None None (Some 21)). reflexivity.
+  - intros file [r |]; [| eexists; reflexivity]. destruct r as [sl [sc |] el ec]; eexists; reflexivity.
+Qed.
+Theorem C06_codeql_location : C06_codeql_location_statement codeql_start_column.
+Proof. exact (C06_codeql_location_all codeql_start_column). Qed.
+Print Assumptions C06_codeql_location.
+
+Theorem C06_codeql_no_region_selects_nothing : forall d file k p,
+  1 <= pline (sstart p) ->
+  exists l, codeql_loc d file None = Some l /\ match_loc T_now RBase k p l = false.
+Proof.
+  intros d file k p Hp. eexists. split; [reflexivity |].
+  unfold match_loc, base_match_loc, eff_span, same_line. simpl.
+  assert (E : (pline (sstart p) =? 0) = false) by lia. rewrite E. reflexivity.
+Qed.
+Print Assumptions C06_codeql_no_region_selects_nothing.
+
+(** a CodeQL region as CodeQL writes it (no endLine on one line, 1-based columns) gives the location semgrep would give *)
+Example C06_codeql_region_example :
+  codeql_loc ScNone w_file (Some (mkregion 3 (Some 6) None (Some 21))) = Some (mkloc w_file (mkpos 3 6) (mkpos 3 21)) /\
+  codeql_loc ScOne w_file (Some (mkregion 4 None None (Some 21))) = Some (mkloc w_file (mkpos 4 1) (mkpos 4 21)).
+Proof. split; reflexivity. Qed.
